@@ -761,13 +761,22 @@ func (t *Teamserver) EventListenerError(ListenerName string, Error error) {
 	t.EventBroadcast("", pk)
 
 	// also remove the listener from the init packages.
+	t.EventsMutex.Lock()
+	defer t.EventsMutex.Unlock()
 	for EventID := range t.EventsList {
 		if t.EventsList[EventID].Head.Event == packager.Type.Listener.Type {
 			if t.EventsList[EventID].Body.SubEvent == packager.Type.Listener.Add {
 				if name, ok := t.EventsList[EventID].Body.Info["Name"]; ok {
 					if name == ListenerName {
-						t.EventsList[EventID].Body.Info["Status"] = "Offline"
-						t.EventsList[EventID].Body.Info["Error"] = Error.Error()
+						// the map is shared with packages that may be being encoded for a
+						// client right now: replace it instead of writing into it
+						Info := make(map[string]any, len(t.EventsList[EventID].Body.Info)+2)
+						for k, v := range t.EventsList[EventID].Body.Info {
+							Info[k] = v
+						}
+						Info["Status"] = "Offline"
+						Info["Error"] = Error.Error()
+						t.EventsList[EventID].Body.Info = Info
 					}
 				}
 			}
@@ -832,6 +841,9 @@ func (t *Teamserver) RemoveClient(ClientID string) {
 
 func (t *Teamserver) EventAppend(event packager.Package) []packager.Package {
 
+	t.EventsMutex.Lock()
+	defer t.EventsMutex.Unlock()
+
 	// some sanity check
 	if event.Head.Event == 0 {
 		return t.EventsList
@@ -846,13 +858,21 @@ func (t *Teamserver) EventAppend(event packager.Package) []packager.Package {
 }
 
 func (t *Teamserver) EventRemove(EventID int) []packager.Package {
+	t.EventsMutex.Lock()
+	defer t.EventsMutex.Unlock()
+
 	t.EventsList = append(t.EventsList[:EventID], t.EventsList[EventID+1:]...)
 
 	return append(t.EventsList[:EventID], t.EventsList[EventID+1:]...)
 }
 
 func (t *Teamserver) SendAllPackagesToNewClient(ClientID string) {
-	for _, Package := range t.EventsList {
+	// send from a snapshot: the list may be appended to or pruned while we are writing
+	t.EventsMutex.Lock()
+	Events := append([]packager.Package(nil), t.EventsList...)
+	t.EventsMutex.Unlock()
+
+	for _, Package := range Events {
 		err := t.SendEvent(ClientID, Package)
 		if err != nil {
 			logger.Error("error while sending info to client("+ClientID+"): ", err)
